@@ -55,3 +55,25 @@ def bootstrap() -> None:
 
 def pkg_dir() -> str:
     return os.path.realpath(os.path.join(REPO, "flamapy", "metamodels", "fm_metamodel"))
+
+
+class library_recursion_limit:
+    """The harness raises the interpreter's recursion limit for its own recursive walkers; library calls are
+    made under the interpreter's DEFAULT limit (what a user's process has), unless the model is too deep for it."""
+    DEFAULT = 1000
+
+    def __init__(self, enabled=True):
+        self.enabled = enabled
+
+    def __enter__(self):
+        self.old = sys.getrecursionlimit()
+        if self.enabled:
+            # keep room for the frames already on the stack
+            import inspect
+            depth = len(inspect.stack(0))
+            sys.setrecursionlimit(self.DEFAULT + depth)
+        return self
+
+    def __exit__(self, *a):
+        sys.setrecursionlimit(self.old)
+        return False
